@@ -204,7 +204,9 @@ impl Check for C20Binary {
             if !lib_ok && case.invalid && !child.stdout.is_empty() {
                 return fail(format!("invalid configuration but something was written to standard output: {}", esc_trunc(&child.stdout, 200)));
             }
-            if !lib_ok && case.sink == 0 && !reference.stdout.starts_with(&child.stdout) && child.stdout != reference.stdout {
+            // a run stopped by --on-error=panic (or by an unreadable input) still owes the user the
+            // rows of the values before the failure: all of them, as the library wrote them
+            if !lib_ok && case.sink == 0 && child.stdout != reference.stdout {
                 return fail(format!("rows before the failure differ from the library's: {} vs {}", esc_trunc(&child.stdout, 200), esc_trunc(&reference.stdout, 200)));
             }
         }
